@@ -423,7 +423,7 @@ def judge(case, col):
                     continue
                 parts, tags, tree, timg, n = (last_prep[x] for x in ('parts', 'tags', 'tree', 'timg', 'n'))
                 tpl = shapes.text(parts)
-                was_executed = cur is not None and cur['executed']
+                was_executed = last_prep['executed']      # execute_steps has run on this tree object
                 prev_unexecuted = cur is not None and not cur['executed']
                 cur = None
                 summary.append('prepare the same tree object again')
@@ -455,6 +455,7 @@ def judge(case, col):
                 feats.add('hist:same-tree-prepared-again')
                 classes.add('hist:same-tree-again')
                 if was_executed:
+                    feats.add('hist:same-tree-after-exec')
                     classes.add('hist:same-tree-again-after-exec')
             classes.add('op:prepare')
             if lossy:
@@ -494,7 +495,8 @@ def judge(case, col):
                 # the statement object exists all the same (params are collected before the columns)
             cur = {'parts': parts, 'tpl': tpl, 'n': n, 'executed': False, 'feats': feats, 'timg': timg, 'tags': tags}
             if not lossy:
-                last_prep = {'parts': parts, 'tags': tags, 'tree': tree, 'timg': timg, 'n': n}
+                last_prep = {'parts': parts, 'tags': tags, 'tree': tree, 'timg': timg, 'n': n,
+                             'executed': bool(same and was_executed)}
             rec = check_count(pl, cur, cfg, 'after prepare')
             if rec:
                 out.append(rec)
@@ -552,6 +554,8 @@ def judge(case, col):
             recs, compared = judge_exec(pl, st_, values, etree, cat, cfg, classes)
             out.extend(recs)
             cur['executed'] = True
+            if last_prep is not None:
+                last_prep['executed'] = True
             tc = template_classes(cur['parts'])
             classes |= tc
             classes |= {'tag:' + t for t in cur['tags'] if t.startswith(('stmt:', 'sub:', 'setop:', 'pred:', 'insert:',
